@@ -20,7 +20,7 @@ PROPERTY = 'C19'
 RULE = ('3-node designs: all 5^3 assignments of the edge profiles {large +, large -, small +, no effect, constant} (6^3 with '
         '"constant difference" for the paired design), group sizes (2,2),(2,3),(3,2) unpaired and (3,3) paired, threshold in '
         '{0.5, 3} and a threshold exactly equal to an attained statistic (profile with t = 2.0), tail in {both,left,right}; k=1 with the full relabelling menu (24 / 120 orders, 8 sign patterns), k=2 for '
-        '(2,2) on a subset (thorough: 4-node designs on a fixed profile set); non-trivial = configuration with at least one '
+        '(2,2) on a subset, 6-7 node designs with three observed components, 9-node two-component designs (thorough: 4-node designs on a fixed profile set); non-trivial = configuration with at least one '
         'observed component (not rejected as "unsuitable threshold") and >= 2 distinct null values over the relabellings')
 ASSUMPTIONS = ['t statistics re-derived from their definitions in this file (zero pooled variance => 0 as the library '
                'documents by construction; paired zero variance follows IEEE: +-inf exceeds, nan does not)',
@@ -99,6 +99,20 @@ def catalogue(thorough):
             for tail in TAILS:
                 cfgs.append({'n': 9, 'profile': prof, 'nx': 2, 'ny': 2, 'thresh': 3.0, 'tail': tail, 'paired': False,
                              'k': 1})
+    # three (and more) observed components: 6 nodes with three disjoint effects, 7 nodes with a triangle, an edge and
+    # a two-edge path
+    p6 = ss.und_pairs(6)
+    p7 = ss.und_pairs(7)
+    three6 = {(0, 1): 'P', (2, 3): 'N', (4, 5): 'P'}
+    three7 = {(0, 1): 'P', (1, 2): 'P', (0, 2): 'P', (3, 4): 'P', (5, 6): 'P', (4, 5): 'Z'}
+    mixed7 = {(0, 1): 'P', (1, 2): 'P', (0, 2): 'P', (3, 4): 'N', (4, 5): 'N', (2, 6): 'S'}
+    for pairs_, design in ((p6, three6), (p7, three7), (p7, mixed7)):
+        prof = ''.join(design.get(e, '0') for e in pairs_)
+        n_ = 6 if pairs_ is p6 else 7
+        for tail in TAILS:
+            for (nx, ny, paired) in ((2, 2, False), (3, 3, True)):
+                cfgs.append({'n': n_, 'profile': prof, 'nx': nx, 'ny': ny, 'thresh': 0.5, 'tail': tail,
+                             'paired': paired, 'k': 1})
     if thorough:
         for prof in ('PPP', 'PNZ', 'PSC'):
             for tail in TAILS:
